@@ -830,15 +830,15 @@ func (env *Env) applyGoFunc(fo *types.Func, recv *Val, argsE []*Expr) (*Val, err
 	for i := 0; i < sig.Params().Len(); i++ {
 		pts = append(pts, sig.Params().At(i).Type())
 	}
-	if sig.Variadic() && len(argsE) < len(pts) {
-		pts = pts[:len(argsE)]
-	}
 	args, err := env.evalArgs(argsE, pts)
 	if err != nil {
 		return nil, err
 	}
 	if sig.Variadic() && len(args) == len(pts)-1 {
 		args = append(args, &Val{T: e.ctx.zero(pts[len(pts)-1]), Typ: pts[len(pts)-1], ConstLen: -1})
+	}
+	if len(args) != len(pts) {
+		return nil, fmt.Errorf("%s expects %d arguments, got %d", fo.Name(), len(pts), len(args))
 	}
 	if recv != nil {
 		args = append([]*Val{recv}, args...)
